@@ -30,12 +30,13 @@ CLAIM = dict(
           'the first of: -i directories in order, directory of the including file; nowhere else), C14_cwd + '
           'C14_cli_passes_absolute (absolute top-level path and include directories, which is what the generated CLI '
           'skeleton passes, make the result independent of the working directory), C14_bytes_found_cwd / '
-          'C14_bytes_as_written_refuted (include_bytes data is cwd-independent iff the found file is the one opened) -- all '
+          'C14_bytes_as_written_refuted (include_bytes data is cwd-independent iff the found file is the one opened), C14_lines_only '
+          '(the 16 passes use the Line of an item only to report errors: any renaming of files / numbers leaves bytes, labels, constants unchanged) -- all '
           'proved about the hand-written reader model; tie: differential runs of asm.read_lines vs the model on generated '
           'trees (depth <= 4, sibling / parent / -i / duplicate names / quotes / comments / absolute paths / decoys in the '
           'working directories); falsifier: assemble() from >= 3 working directories vs an independent textual splicer, and '
           'the real CLI from 3 directories'),
-    note=('that assemble() depends on Lines only through their contents is evaluated on the real code, not proved; os.path '
+    note=('that the PARSER depends on Lines only through their contents is evaluated on the real code, not proved (the passes: C14_lines_only); os.path '
           'and str methods are modelled by hand (POSIX, ASCII whitespace); symlinks, cycles, non-UTF-8 files not modelled'),
     technique='Coq theorems about an executable Gallina reader model + differential correspondence + direct falsifier',
     design='6/C14')
